@@ -26,6 +26,12 @@ RULE = "E4 Choice algebra on the open flag; E2 diagonal; E3 sibling agreement se
 def run(ctx):
     P = ctx.P
     pinned = spec("pinned.json")
+    # "for all identifiers, including the empty one": sealing decides through the hash of the identifier only - no
+    # branch on the way reads the identifier itself, so none is refused for its bytes
+    from . import flow as F_mb
+
+    # (only the identifier: the keystream helpers legitimately walk the message bytes they mask)
+    F_mb.check_message_blind_control(ctx, "E6.id-blind", P, ["PublicKey<C>::encrypt_time_lock", "BlsTimeCrypt::seal"], pnames=("id",), floor=2)
     # diagonal
     f = ctx.need_fn("E2.diagonal", "TimeCryptCiphertext<C>::decrypt")
     if f is not None:
